@@ -532,7 +532,7 @@ fn arb_sched_case() -> impl Strategy<Value = SchedCase> {
 }
 
 pub fn run(ctx: &Ctx, st: &mut Stats) {
-    let n = ctx.tier.pick(2_500, 150_000);
+    let n = ctx.tier.pick(8_000, 150_000);
     SCHED.run_random(ctx, st, n, arb_sched_case);
     st.extra.insert("schedules_run".into(), serde_json::json!(SCHEDULES_RUN.load(std::sync::atomic::Ordering::Relaxed)));
     st.extra.insert("schedules_differing_from_fifo".into(), serde_json::json!(SCHEDULES_NONFIFO.load(std::sync::atomic::Ordering::Relaxed)));
@@ -722,7 +722,7 @@ pub fn run14(ctx: &Ctx, st: &mut Stats) {
     DATA.run_exhaustive(ctx, st, total, &decode);
     st.exhaustive_drivers.retain(|d| d != "data"); // the schedule dimension is sampled, not enumerated
     // random sizes, scripted (shrinkable) schedules
-    let n = ctx.tier.pick(60_000, 3_000_000);
+    let n = ctx.tier.pick(150_000, 3_000_000);
     DATA.run_random(ctx, st, n, || {
         (0u16..4200, 0u8..4, prop::sample::select(shapes()), prop::collection::vec(any::<u8>(), 0..200), prop_oneof![3 => Just(0u8), 2 => 0u8..8], prop::bool::weighted(0.4))
             .prop_map(|(n, trailing, shape, v, pre, utf8)| DataCase { n, trailing, shape, chooser: Chooser::Scripted(v), pre, utf8 })
